@@ -134,7 +134,10 @@ func VH_C05_user_requests(h *vrt.H) {
 	if newKind > 0 {
 		addr := h.BtcAddr(vrt.AddrP2WPKH, h.Bytes("newProgram", 20), true)
 		if newKind == 2 {
-			addr = h.BtcAddr([]int{vrt.AddrGarbage, vrt.AddrP2PK, vrt.AddrP2WPKH}[h.Choose("badKind", 0, 2)], h.Bytes("badProgram", 20), false)
+			// garbage, a legacy pay-to-pubkey address of this network (compressed, uncompressed,
+			// hybrid key) or a standard address of another network
+			bk := h.Choose("badKind", 0, 4)
+			addr = h.BtcAddr([]int{vrt.AddrGarbage, vrt.AddrP2PK, vrt.AddrP2WPKH, vrt.AddrP2PKUncompressed, vrt.AddrP2PKHybrid}[bk], h.Bytes("badProgram", 20), bk == 1 || bk >= 3)
 		}
 		reqs.Withdraws = append(reqs.Withdraws, &goattypes.WithdrawalRequest{Id: newID, Amount: h.U64("newAmount"), TxPrice: h.U64("newPrice"), Address: addr})
 	}
